@@ -64,6 +64,16 @@ def main():
         if kind.startswith("ct") and any(q["op"] in BIN2 and not vars_of(q) for q in subformulas(phi)):
             continue
         vs = vars_of(phi) or ["x"]
+        headless = False
+        if rng.random() < 0.06 and "x" in vs:
+            # an input signal called `out` and an assertion without a name (which is implicitly called out, too)
+            import copy
+            phi = copy.deepcopy(phi)
+            for q_ in subformulas(phi):
+                if q_["op"] == "var" and q_["v"] == "x":
+                    q_["v"] = "out"
+            vs = vars_of(phi)
+            headless = True
         declared, order, extra = shapes(rng, vs)
         if kind.startswith("dt"):
             N = rng.choice([1, 1, 2, 3, 5])
@@ -72,6 +82,8 @@ def main():
                    "dt_on": ["StlDiscreteTimeSpecification", "StlDiscreteTimeOnlineSpecification"],
                    "dt_past": ["StlDiscreteTimeSpecification", "StlDiscreteTimeOnlineSpecification"]}[kind]
             o = dt_obj(phi, S, declared, factory=rng.choice(fac))
+            if headless:
+                o["text"] = to_text(phi, S)
             if kind == "dt_off":
                 e = ev_evaluate(range(N), w, order=order)
                 if extra:
@@ -94,6 +106,8 @@ def main():
                    "ct_on": ["StlDenseTimeSpecification", "StlDenseTimeOnlineSpecification"],
                    "ct_past": ["StlDenseTimeSpecification", "StlDenseTimeOnlineSpecification"]}[kind]
             o = ct_obj(phi, S, declared, factory=rng.choice(fac))
+            if headless:
+                o["text"] = to_text(phi, S)
             if kind == "ct_off":
                 e = ev_ct("evaluate", w, order=order)
                 if extra:
